@@ -671,10 +671,71 @@ pub fn relate_two_leaves(v: &mut V, rng: &mut Rng) -> bool {
 }
 
 /// Apply a random mutation strategy; returns labels of what was done.
+/// composite nodes (structs, tuples, sequence elements) that have at least one numeric leaf below them
+fn count_composites(v: &V) -> usize {
+    let kids: Vec<&V> = match v {
+        V::Some(x) | V::Newtype(_, x) | V::NewtypeVariant(_, _, _, x) => vec![&**x],
+        V::Seq(xs) | V::Tuple(xs) | V::TupleVariant(_, _, _, xs) => xs.iter().collect(),
+        V::TupleStruct(n, xs) if *n != "SigId" => xs.iter().collect(),
+        V::Struct(_, fs) | V::StructVariant(_, _, _, fs) => fs.iter().map(|(_, x)| x).collect(),
+        _ => Vec::new(),
+    };
+    let own = if matches!(v, V::Struct(..) | V::Tuple(..) | V::TupleStruct(..)) && !kids.is_empty() { 1 } else { 0 };
+    own + kids.iter().map(|k| count_composites(k)).sum::<usize>()
+}
+
+fn zero_all_numeric(v: &mut V) {
+    walk_mut(v, ("", ""), &mut |x, s, _| match s {
+        Site::Int => int_set(x, 0),
+        Site::Float => match x {
+            V::F32(f) => *f = 0.0,
+            V::F64(f) => *f = 0.0,
+            _ => {}
+        },
+        _ => {}
+    });
+}
+
+fn zero_nth_composite(v: &mut V, target: usize, seen: &mut usize) -> bool {
+    let is_comp = matches!(v, V::Struct(..) | V::Tuple(..) | V::TupleStruct(..));
+    if is_comp && !matches!(v, V::TupleStruct(n, _) if *n == "SigId") {
+        if *seen == target {
+            zero_all_numeric(v);
+            return true;
+        }
+        *seen += 1;
+    }
+    match v {
+        V::Some(x) | V::Newtype(_, x) | V::NewtypeVariant(_, _, _, x) => zero_nth_composite(x, target, seen),
+        V::Seq(xs) | V::Tuple(xs) | V::TupleVariant(_, _, _, xs) => xs.iter_mut().any(|x| zero_nth_composite(x, target, seen)),
+        V::TupleStruct(n, xs) if *n != "SigId" => xs.iter_mut().any(|x| zero_nth_composite(x, target, seen)),
+        V::Struct(_, fs) | V::StructVariant(_, _, _, fs) => fs.iter_mut().any(|(_, x)| zero_nth_composite(x, target, seen)),
+        _ => false,
+    }
+}
+
+/// one whole element (a list entry, a grid point, a sub-structure) set to zero in all its numeric fields at once:
+/// "nothing here" in the middle of populated data
+pub fn zero_one_element(v: &mut V, rng: &mut Rng) -> bool {
+    let n = count_composites(v);
+    if n <= 1 {
+        return false;
+    }
+    // never the root (that would be the all-zero message, which other generators cover)
+    let target = 1 + rng.usize_below(n - 1);
+    let mut seen = 0;
+    zero_nth_composite(v, target, &mut seen)
+}
+
 pub fn mutate(v: &mut V, rng: &mut Rng, tpl: &Templates) -> Vec<&'static str> {
     let mut done: Vec<&'static str> = Vec::new();
-    let strat = rng.below(22);
+    let strat = rng.below(24);
     match strat {
+        22 | 23 => {
+            if zero_one_element(v, rng) {
+                done.push("zero_one_element");
+            }
+        }
         20 | 21 => {
             if relate_two_leaves(v, rng) {
                 done.push("relate_two_leaves");
